@@ -18,6 +18,7 @@ pub mod syscalls {
 //@include prelude/syserr_opaque.rs
 //@use syscalls.openat c12
 //@use syscalls.mkdirat c12
+//@use-missing syscalls.openat syscalls.openat_follow syscalls.readlinkat syscalls.mkdirat syscalls.mknodat syscalls.unlinkat syscalls.linkat syscalls.symlinkat syscalls.renameat syscalls.renameat2 syscalls.openat2
 }
 use syscalls::Error as SyscallError;
 //@item src/error.rs :: enum ErrorKind | sub.ErrorKind
